@@ -346,8 +346,8 @@ def layer_hydraulics(s):
 # initial water content
 # ------------------------------------------------------------------------------------------------
 @st.composite
-def iwcs(draw, P, s, nl):
-    r = draw(_iwcs(P, s, nl))
+def iwcs(draw, P, s, nl, zmax=None):
+    r = draw(_iwcs(P, s, nl, zmax))
     if r["method"] == "Layer" and nl > 1 and draw(st.booleans()):
         # entries are assigned by layer NUMBER: the order in which the user lists them is irrelevant
         order = draw(st.permutations(list(range(nl))))
@@ -356,7 +356,7 @@ def iwcs(draw, P, s, nl):
 
 
 @st.composite
-def _iwcs(draw, P, s, nl):
+def _iwcs(draw, P, s, nl, zmax=None):
     kind = weighted(draw, P["iwc"])
     layers = list(range(1, nl + 1))
     if kind in ("FC", "WP", "SAT"):
@@ -376,6 +376,16 @@ def _iwcs(draw, P, s, nl):
     # Depth: 1-5 increasing depth points
     npts = draw(st.integers(1, 5))
     depths = sorted(draw(st.lists(f2(0.0, 2.5), min_size=npts, max_size=npts, unique=True)))
+    if zmax is not None and flag(draw, 0.35):
+        # boundary values: a depth point exactly at the bottom of the profile the model will use (after deepening),
+        # on a compartment boundary or on a compartment centre
+        base_dz = s.get("args", {}).get("dz", [0.1] * 12 if s["type"] != "ac_TunisLocal" else [0.1] * 6 + [0.15] * 5 + [0.2])
+        new = deepen(base_dz, zmax)
+        bots = [r2(sum(new[:i + 1])) for i in range(len(new))]
+        special = [bots[-1], bots[-1], r2(sum(base_dz)), draw(st.sampled_from(bots)), r2(draw(st.sampled_from(bots)) - new[0] / 2.0)]
+        v = draw(st.sampled_from(special))
+        if v > 0 and v not in depths:
+            depths = sorted(depths[:-1] + [v]) if len(depths) > 1 and draw(st.booleans()) else sorted(depths + [v])
     t = draw(st.sampled_from(["Prop", "Pct", "Num"]))
     if t == "Num" and lo + 0.01 >= hi:
         t = "Prop"
@@ -475,7 +485,11 @@ def co2s(draw, y0, y1, kinds=None):
     k = draw(st.sampled_from(list(kinds or ["const", "const_default", "table"])))
     ref = {"ref": float(draw(st.sampled_from([330.0, 400.0, 450.0])))} if draw(st.integers(0, 4)) == 0 else {}
     if k == "const":
-        return dict({"constant": float(draw(st.integers(250, 2500)))}, **ref)
+        # the crop-coefficient correction is linear in (C - ref) / (550 - ref) and reaches zero 20 such units above the
+        # reference: with a user-defined reference the concentration stays within half of that span (with the default
+        # reference 369.41 ppm the whole documented range 250..2500 ppm does)
+        hi = 2500 if not ref else int(min(2500.0, ref["ref"] + 10.0 * (550.0 - ref["ref"])))
+        return dict({"constant": float(draw(st.integers(250, hi)))}, **ref)
     if k == "const_default":
         return dict({"constant_default": True}, **ref)
     base = float(draw(st.integers(280, 900)))
@@ -547,7 +561,7 @@ def configs(draw, P=None):
 
     nl = n_layers(s)
     cfg = dict(start=ymd(start), end=ymd(end), off_season=flag(draw, P["p_off"]), crop=crop, soil=s)
-    cfg["iwc"] = draw(iwcs(P, s, nl))
+    cfg["iwc"] = draw(iwcs(P, s, nl, zmax))
     cfg["irr"] = draw(irrigations(P, start, ndays, plantings))
     if s["type"] == "custom":
         cn = 77.0 if s["args"].get("calc_cn") == 1 else float(s["args"].get("cn", 61.0))
